@@ -6,6 +6,7 @@ LEVEL = 'exploration'
 
 
 def one(ctx, lb, c):
+    streams.materialise(c)
     res = streams.compress(ctx, lb, c, tables=True)
     ctx.ev()
     if res is None:
@@ -51,6 +52,10 @@ def one(ctx, lb, c):
                 ctx.count('unused_tables')
             if ti == 0 and t['start'] != t['len'][0]:
                 ctx.count('blocks_with_padded_first_delta')
+            if ti == 0:
+                ctx.maxmon('max_first_table_RUNA_length', t['len'][0])
+                if t['len'][0] >= 18 and t['start'] != t['len'][0]:
+                    ctx.count('blocks_with_padded_first_delta_and_RUNA_length_18_or_more')
         ctx.count('blocks')
         if b['nsel'] == b['groups'] + 1:
             ctx.count('blocks_with_padding_selector')
@@ -74,7 +79,7 @@ def run(ctx):
                 'inspector refbz and decoded by libbz2; non-trivial = distinct (input sha1, level, mode) with a fully inspected stream')
     lb = core.build_lbzip2('hook')
     q = ctx.quick()
-    cs = streams.compress_cases(ctx, 200 if q else 3000, 300 if q else 4000, nbig=3 if q else 40)
+    cs = streams.expand_generated(streams.compress_cases(ctx, 200 if q else 3000, 300 if q else 4000, nbig=3 if q else 40))
     core.pmap(lambda c: one(ctx, lb, c), cs)
     for k in ('unused_tables', 'blocks_with_padding_selector', 'blocks_with_padded_first_delta'):
         if not ctx.monitors.get(k):
